@@ -41,10 +41,10 @@ def gen_cases(tier, seed):
 
 
 SRC_FIELDS = [('k', 'integer'), ('k2', 'string'), ('v', 'integer'), ('w', 'number'), ('s', 'string'),
-              ('d', 'date')]
+              ('d', 'date'), ('du', 'duration')]
 AGG_FIELD = {   # aggregate -> source fields it is documented for
-    'sum': ['v', 'w', 's'], 'avg': ['v', 'w'], 'median': ['v', 'w'], 'min': ['v', 'w', 's', 'd'],
-    'max': ['v', 'w', 's', 'd'], 'first': ['v', 's', 'd', 'w'], 'last': ['v', 's', 'd'],
+    'sum': ['v', 'w', 's', 'du'], 'avg': ['v', 'w', 'du'], 'median': ['v', 'w', 'du', 'du'], 'min': ['v', 'w', 's', 'd', 'du'],
+    'max': ['v', 'w', 's', 'd'], 'first': ['v', 's', 'd', 'w', 'du'], 'last': ['v', 's', 'd'],
     'count': ['v', 's', None], 'counters': ['s', 'v'], 'set': ['v', 's'], 'array': ['v', 's', 'd'],
     'any': ['v', 's', 'w'],
 }
@@ -57,7 +57,9 @@ def src_row(rng, i, nkeys):
             'w': rng.choice([None, D('0'), D('1.5'), D('2'), D('-0.25'), D('10.125')]),
             's': rng.choice([None, 'a', 'b', 'ab', 'é']),
             'd': rng.choice([None, datetime.date(2020, 1, 1), datetime.date(1999, 5, 17),
-                             datetime.date(2021, 12, 31)])}
+                             datetime.date(2021, 12, 31)]),
+            'du': rng.choice([None, datetime.timedelta(hours=1), datetime.timedelta(hours=2), datetime.timedelta(hours=5),
+                              datetime.timedelta(minutes=30)])}
 
 
 def match_value(exp, got):
@@ -139,7 +141,9 @@ def run_case(case):
     if shape == 'composite_sep':
         # parts that contain the character a naive rendering would join them with: ('x:y', 'z') is not ('x', 'y:z')
         for r in S:
-            r['k2'], r['s'] = rng.choice([('x:y', 'z'), ('x', 'y:z'), ('x', 'z'), ('x:y', 'y:z')])
+            r['k2'], r['s'] = rng.choice([('x:y', 'z'), ('x', 'y:z'), ('x', 'z'), ('x:y', 'y:z'),
+                                          # ... also together with the character an escaping scheme would use
+                                          ('logs\\', 'app:old'), ('logs:app\\', 'old'), ('a\\:b', 'c'), ('a\\', ':b:c')])
     if shape == 'equal_but_distinct':
         # key values that compare (and hash) equal but RENDER differently are different keys
         EQ = [D('1'), D('1.0'), D('1.00'), 1, 1.0, True, D('2'), 2]
@@ -162,7 +166,8 @@ def run_case(case):
             row['k'] = kv
             row['k2'] = rng.choice(['x', 'y', 'zz', 'w'])
         elif shape == 'composite_sep':
-            row['k2'], row['s'] = rng.choice([('x:y', 'z'), ('x', 'y:z'), ('x', 'z'), ('q', 'q')])
+            row['k2'], row['s'] = rng.choice([('x:y', 'z'), ('x', 'y:z'), ('x', 'z'), ('q', 'q'),
+                                              ('logs\\', 'app:old'), ('logs:app\\', 'old'), ('a\\:b', 'c')])
         elif shape == 'fmt_literal':
             row['tk'] = 'K-%s' % kv
         elif shape == 'fmt_spec':
